@@ -190,17 +190,17 @@ pub fn get_solidity_version_from_source_unit(source_unit: SourceUnit) -> Option<
                 continue;
             }
 
-            let minor_major_patch_version =
+            let major_minor_patch_version =
                 get_solidity_major_minor_patch_version(&solidity_version_literal.string)
                     .iter()
-                    .map(|f| f.parse::<i32>().unwrap())
-                    .collect::<Vec<i32>>();
+                    .map(|f| f.parse::<i32>())
+                    .collect::<Result<Vec<i32>, _>>();
 
-            return Some((
-                minor_major_patch_version[0],
-                minor_major_patch_version[1],
-                minor_major_patch_version[2],
-            ));
+            //A version that can not be read is treated like a missing pragma
+            return match major_minor_patch_version {
+                Ok(version) if version.len() == 3 => Some((version[0], version[1], version[2])),
+                _ => None,
+            };
         }
     }
 
